@@ -671,7 +671,7 @@ class Ev:
             return self.call(e)
         if isinstance(e, ast.Compare):
             if self.choose is not None:
-                c = self.choose(e, self)
+                c = self.decide(e)
                 if c is not None:
                     return ONE if c else ZERO
             # a boolean mask kept as a value: opaque, only usable as the
@@ -679,7 +679,7 @@ class Ev:
             return Rat.atom('mask:' + ' '.join(unparse(e).split()))
         if isinstance(e, ast.IfExp):
             if self.choose is not None:
-                c = self.choose(e.test, self)
+                c = self.decide(e.test)
                 if c is not None:
                     return self.ev(e.body if c else e.orelse)
             raise Inconclusive('conditional expression ' + unparse(e))
@@ -721,6 +721,30 @@ class Ev:
         for a, v in sub.items():
             n, d = n.subst(a, v), d.subst(a, v)
         return Rat(n, d)
+
+    def decide(self, test):
+        """ask the rule's hook about a branch condition; `a != b`, `a is not
+        b` and `not c` are answered through their positive forms, so that a
+        rule that knows `x == 'angle'` also knows `x != 'angle'`"""
+        if self.choose is None:
+            return None
+        c = self.choose(test, self)
+        if c is not None:
+            return c
+        if isinstance(test, ast.UnaryOp) and isinstance(test.op, ast.Not):
+            d = self.decide(test.operand)
+            return None if d is None else not d
+        if isinstance(test, ast.Compare) and len(test.ops) == 1 and \
+                isinstance(test.ops[0], (ast.NotEq, ast.IsNot)):
+            pos = ast.Compare(
+                left=test.left,
+                ops=[ast.Eq() if isinstance(test.ops[0], ast.NotEq)
+                     else ast.Is()],
+                comparators=test.comparators)
+            ast.copy_location(pos, test)
+            d = self.choose(pos, self)
+            return None if d is None else not d
+        return None
 
     def arith(self, op, a, b, node=None):
         if isinstance(a, (tuple, list)) or isinstance(b, (tuple, list)):
@@ -801,7 +825,7 @@ class Ev:
                 # elementwise selection: the caller's hook says which branch
                 # the elements under consideration take
                 if self.choose is not None:
-                    c = self.choose(e.args[0], self)
+                    c = self.decide(e.args[0])
                     if c is not None:
                         return self.ev(e.args[1] if c else e.args[2])
                 raise Inconclusive('np.where with undecided condition ' +
@@ -918,7 +942,7 @@ class Ev:
             self.returned = ('raise', s)
             return True
         if isinstance(s, ast.If):
-            c = self.choose(s.test, self) if self.choose else None
+            c = self.decide(s.test) if self.choose else None
             if c is None and not s.orelse and all(
                     isinstance(b, ast.Raise) for b in s.body):
                 return False        # argument-validation guard: valid input
